@@ -357,7 +357,7 @@ def prep_config(task):
     """phase A: seed the sharing tables, explore the top of the tree and
     return the frontier of sub-trees"""
     cfg, tables = task
-    d = os.path.join(core.scratch_root(), "c11.results.batches")
+    d = os.path.join(core.scratch_root(), "c11.results[1].batches")
     st = Setup(cfg, d)
     if tables:
         st.sharing.load_all(tables)
@@ -410,7 +410,7 @@ def prep_config(task):
 def run_subtree(task):
     """phase B: exhaust one sub-tree"""
     cfg, tables, stack = task
-    d = os.path.join(core.scratch_root(), "c11.results.batches")
+    d = os.path.join(core.scratch_root(), "c11.results[1].batches")
     st = Setup(cfg, d)
     st.sharing.load_all(tables)
     st.sharing.freeze()
@@ -618,7 +618,7 @@ def long_wait(task):
 
 def replay(case):
     cfg = [c for c in configs("thorough") if c["name"] == case["config"]][0]
-    d = os.path.join(core.scratch_root(), "c11.results.batches")
+    d = os.path.join(core.scratch_root(), "c11.results[1].batches")
     st = Setup(cfg, d)
     st.sharing.load(case["sharing"])
     exp = sched.Explorer(st.make_exec, lambda ex: "")
